@@ -607,7 +607,12 @@ row('FLOAT.RAND', ['C13'], fired='f32_lt(S0.config.min_random_float, S0.config.m
 row('NAME.RAND', ['C13'], pushes=[('name', None)])
 # "returns a currently bound name whenever one exists": existing_random_name collects keys().cloned() -- outside Verus (not decided)
 row('NAME.RANDBOUNDNAME', ['C13'], pushes=[('name', None)])
-row('CODE.RAND', ['C12'], takes=[('int', 1)], touches=['code'], clauses=[kept('code', 0, 1), ('{C12,C10}unfired.code', 'S0.int.len() == 0 ==> S1.code == S0.code')])
+# never more points than |n| nor than max-points-in-random-expressions
+_lim = 'sat_abs(top(S0.int, 0))'
+_cfg = 'sat_abs(S0.config.max_points_in_random_expressions)'
+row('CODE.RAND', ['C12'], takes=[('int', 1)], touches=['code'], clauses=[kept('code', 0, 1),
+    ('fired.value.code.bound', '(S0.int.len() >= 1 && S1.code.len() == S0.code.len() + 1) ==> crate::push::item::points(top(S1.code, 0)) <= %s && crate::push::item::points(top(S1.code, 0)) <= %s' % (_lim, _cfg)),
+    ('{C12,C10}unfired.code', 'S0.int.len() == 0 ==> S1.code == S0.code')])
 row('BOOLVECTOR.RAND', ['C13'], takes=[('int', 1), ('float', 1)], touches=['boolvec'], clauses=[kept('boolvec', 0, 1),
     ('{C13,C10}unfired.boolvec', '!(S0.int.len() >= 1 && S0.float.len() >= 1) ==> S1.boolvec == S0.boolvec')])
 row('INTVECTOR.RAND', ['C13'], takes=[('int', 3)], touches=['intvec'], clauses=[kept('intvec', 0, 1),
